@@ -61,6 +61,10 @@ func localMutants(v ref.Val, nm []string) []Mutant {
 			add(smp, kind)
 		}
 	}
+	if v.K != ref.KInt {
+		// an integer above MaxInt64 where no integer belongs (codecs hand it over as a UintNode by AssignNode)
+		add(ref.Uint(1<<63+5), "retyped→uint>int64")
+	}
 	switch v.K {
 	case ref.KInt:
 		add(ref.Uint(1<<63+5), "int→uint>int64")
